@@ -138,6 +138,7 @@ type lineAlpha struct {
 	n2   uint64
 	size uint64
 	loop bool
+	four bool // every open polyline of exactly 4 vertices (zigzags, doubled-back horizontal runs, notches below a peak)
 }
 
 func newLineAlpha(k int, e enum.Embed, maxN int) *lineAlpha {
@@ -150,6 +151,9 @@ func newLineAlpha(k int, e enum.Embed, maxN int) *lineAlpha {
 }
 
 func (a *lineAlpha) get(i uint64, buf Path) Path {
+	if a.four {
+		return enum.UnrankPath(i, a.k, 4, a.e, buf)
+	}
 	if a.loop {
 		// an open path that returns to its start: p0, p1, p2, p0
 		buf = enum.UnrankPath(i, a.k, 3, a.e, buf)
@@ -167,6 +171,10 @@ func c09Scope(e enum.Embed, lineK, lineN, clipN int, withClosedSubject bool, lev
 		// lineN == 4 stands for the family of open loops p0,p1,p2,p0 (an open path may end where it starts)
 		la = &lineAlpha{k: lineK, e: e, loop: true, size: enum.PathCount(lineK, 3)}
 	}
+	if lineN == 5 {
+		// lineN == 5 stands for the family of all 4-vertex open polylines
+		la = &lineAlpha{k: lineK, e: e, four: true, size: enum.PathCount(lineK, 4)}
+	}
 	nC := enum.PathCount(3, clipN)
 	nS := uint64(1)
 	nC = (nC + stride - 1) / stride
@@ -178,6 +186,9 @@ func c09Scope(e enum.Embed, lineK, lineN, clipN int, withClosedSubject bool, lev
 	name := fmt.Sprintf("open/lines(L%d,2..%d) x every %d-th clip of P(3,%d)/%s", lineK, lineN, stride, clipN, e.Name)
 	if la.loop {
 		name = fmt.Sprintf("open/loops p0,p1,p2,p0 over L%d x every %d-th clip of P(3,%d)/%s", lineK, stride, clipN, e.Name)
+	}
+	if la.four {
+		name = fmt.Sprintf("open/4-vertex polylines over L%d x every %d-th clip of P(3,%d)/%s", lineK, stride, clipN, e.Name)
 	}
 	if withClosedSubject {
 		name = fmt.Sprintf("open3/lines(L%d,2) x every %d-th closed subject of P(3,3) x every %d-th clip of P(3,%d)/%s", lineK, stride, stride, clipN, e.Name)
@@ -277,20 +288,20 @@ func init() {
 	drv.Register(&drv.Check{
 		ID:    "C09",
 		Title: "Open subject paths are cut exactly at the clip region boundary",
-		Rule: "every open polyline with 2-3 vertices over L(4) and every open loop p0,p1,p2,p0 over L(3) (horizontal segments, starting/ending on clip edges and vertices included) x every clip of P(3,3) [and P(3,4)] under stride-10 and sheared embeddings x 4 clip types x 4 fill rules through Clipper64.AddPaths(open)+ExecuteOC; a three-party scope (2-point line x closed subject P(3,3) x clip P(3,3)) for the Union clause; on every 32nd input ClipperD(0).ExecuteOC and ExecutePolyTree64. " +
+		Rule: "every open polyline with 2-3 vertices over L(4), every open loop p0,p1,p2,p0 and every 4-vertex open polyline over L(3) (zigzags, doubled-back horizontal runs, notches below a peak; horizontal segments, starting/ending on clip edges and vertices included) x every clip of P(3,3) [and P(3,4)] under stride-10 and sheared embeddings x 4 clip types x 4 fill rules through Clipper64.AddPaths(open)+ExecuteOC; a three-party scope (2-point line x closed subject P(3,3) x clip P(3,3)) for the Union clause; on every 32nd input ClipperD(0).ExecuteOC and ExecutePolyTree64. " +
 			"Oracle: each subject segment sampled at t=(2j+1)/32 (exact rationals); a sample > 2 units (exact) from every closed input edge is classified by exact winding and fill rule: expected covered (Intersection: in clip; Difference: not in clip; Union: in neither closed region) => within 1 unit of the open solution, otherwise farther than 0.5; every open-solution vertex and segment midpoint within 1.5 of the subject lines; closed solution bit-identical to the one computed without the open paths. non-trivial = input with a sample that must be covered",
-		Assumptions:      []string{"lines of <= 3 vertices, one clip polygon of <= 4 vertices; float64 distances with 1e-6 guard on coordinates < 2^12"},
+		Assumptions:      []string{"lines of <= 4 vertices, one clip polygon of <= 4 vertices; float64 distances with 1e-6 guard on coordinates < 2^12"},
 		RequiredCounters: []string{"inputs_with_a_covered_sample_point"},
 		Scopes: func(tier string) []*drv.Scope {
 			var out []*drv.Scope
 			if tier == "quick" {
-				out = append(out, c09Scope(enum.Eax, 4, 2, 3, false, 1, 1), c09Scope(enum.Esh, 3, 3, 3, false, 2, 3), c09Scope(enum.Eax, 3, 2, 3, true, 3, 13), c09Scope(enum.Eax, 3, 4, 3, false, 3, 9))
+				out = append(out, c09Scope(enum.Eax, 4, 2, 3, false, 1, 1), c09Scope(enum.Esh, 3, 3, 3, false, 2, 3), c09Scope(enum.Eax, 3, 2, 3, true, 3, 13), c09Scope(enum.Eax, 3, 4, 3, false, 3, 10), c09Scope(enum.Eax, 3, 5, 3, false, 4, 10))
 				return out
 			}
 			for _, e := range []enum.Embed{enum.Eax, enum.Esh} {
 				out = append(out, c09Scope(e, 4, 2, 3, false, 1, 1), c09Scope(e, 4, 3, 3, false, 2, 1), c09Scope(e, 4, 2, 4, false, 3, 1), c09Scope(e, 3, 2, 3, true, 3, 5))
 			}
-			out = append(out, c09Scope(enum.Eax, 4, 3, 4, false, 4, 1), c09Scope(enum.Eax, 3, 4, 3, false, 3, 1), c09Scope(enum.Esh, 4, 4, 3, false, 4, 3))
+			out = append(out, c09Scope(enum.Eax, 4, 3, 4, false, 4, 1), c09Scope(enum.Eax, 3, 4, 3, false, 3, 1), c09Scope(enum.Esh, 4, 4, 3, false, 4, 3), c09Scope(enum.Eax, 3, 5, 3, false, 4, 1), c09Scope(enum.Esh, 3, 5, 3, false, 4, 4))
 			return out
 		},
 	})
